@@ -4,6 +4,7 @@ import common
 import dataflow
 import exprtree
 import guardtable as GT
+import hashsites
 import literals
 import obligations
 from common import *
@@ -114,12 +115,15 @@ def run(ctx, rep):
         import extract
         want = 'Keccak256' if extract.CONFIGS[cname]['hash'].startswith('keccak') else 'Blake2s'
         f2 = d2.fn(VERIFY_POW, 'C09.hasher')
-        news = [t['f'].get('full') or '' for _, t in f2.calls() if t['f'].get('name') == 'new' and 'Digest' in (t['f'].get('path') or '')]
-        ok = len(news) == 2 and all(want in n for n in news)
+        import hashsites
+        news = [t['f'].get('full') or '' for b_ in common.bodies(d2, f2, helpers=2) for _, t in b_.calls()
+                if t['f'].get('name') == 'new' and 'Digest' in (t['f'].get('path') or '')]
+        napps = len(hashsites.applications(d2, f2))
+        ok = bool(news) and all(want in n for n in news) and napps == 2
         if want == 'Blake2s':
             # Blake2s256 = 32-byte output: U32 = UInt<...B1,B0,B0,B0,B0,B0>
             ok = ok and all(n.count('B0') == 5 and 'B1' in n for n in news)
-        rep.ob('C09.hasher', cname, ok, f'{cname}: PoW hashers {[n.split(" as ")[0][-60:] for n in news]} (expected {want}-256 twice)', f2.loc(), cname)
+        rep.ob('C09.hasher', cname, ok, f'{cname}: PoW hashers {[n.split(" as ")[0][-60:] for n in news]} applied {napps} time(s) (expected {want}-256, applied twice)', f2.loc(), cname)
 
 
 def preimage(db, rep):
@@ -141,30 +145,42 @@ def preimage(db, rep):
         ok1 = (len(e1) == 3 and exprtree.show(e1[0][1][0]) == f'to_be_bytes({hex(magic)})' and e1[1][1][0] == ('arg', 1)
                and e1[2][0] == 'push' and e1[2][1][0] == ('arg', 2))
         s20 = exprtree.show(e2[0][1][0]) if e2 else ''
-        ok2 = (len(e2) == 2 and 'finalize' in s20 and exprtree.show(e2[1][1][0]) == 'to_be_bytes(a3)')
+        h1 = e2[0][1][0] if e2 else None
+        from_hash = 'finalize' in s20 or (isinstance(h1, tuple) and isinstance(h1[0], str) and hashsites.is_hash_helper(db, h1[0]))
+        ok2 = (len(e2) == 2 and from_hash and exprtree.show(e2[1][1][0]) == 'to_be_bytes(a3)')
     rep.ob('C09.preimage', 'buffer1', ok1, f'first preimage must be MAGIC_be || digest || n_bits; events: {shown[0] if shown else None}', fn.loc(), cfg, sample=True)
     rep.ob('C09.preimage', 'buffer2', ok2, f'second preimage must be hash1 || nonce_be; events: {shown[1] if len(shown) > 1 else None}', fn.loc(), cfg)
-    # hashers: each updated exactly once with its buffer, then finalized; hash1 feeds buffer2
-    hs = [(c, e) for c, e in by_cls.items() if any(x[0] == 'update' for x in e)]
-    hs.sort(key=lambda ce: ce[1][0][3])
-    okh = len(hs) == 2 and len(bufs) == 2
+    # two hash applications (a hasher updated here, or a call of a one-shot hash helper), each consuming its own buffer
+    # after the buffer is complete; the second buffer is filled after the first application
+    apps = hashsites.applications(db, fn)
+    defs = common.defs_of(fn)
+
+    def cls_of(op, depth=0):
+        pl = op_place(op)
+        if pl is None:
+            return None
+        c_ = fl.find(pl['l'])
+        if depth > 6:
+            return c_
+        for _, kind, rv in defs.get(pl['l'], []):
+            if kind == 'assign' and rv['k'] == 'ref':      # &buffer / &*slice: resolve through the borrow
+                c_ = cls_of({'cp': {'l': rv['place']['l'], 'p': []}}, depth + 1)
+            if kind == 'assign' and rv['k'] == 'use':
+                c_ = cls_of(rv['a'], depth + 1)
+            if kind == 'call' and rv['f'].get('name') in ('deref', 'as_slice', 'as_ref', 'borrow') and rv.get('args'):
+                c_ = cls_of(rv['args'][0], depth + 1)
+        return c_
+    okh = len(apps) == 2 and len(bufs) == 2
     if okh:
-        for (hc, he), (bc, be) in zip(hs, bufs):
-            ups = [x for x in he if x[0] == 'update']
-            fins = [x for x in he if x[0] == 'finalize']
-            okh = okh and len(ups) == 1 and ups[0][3] > max(x[3] for x in be if x[0] in ('extend_from_slice', 'push'))
-            # the update argument is (a reference to) that buffer
-            arg_cls = None
-            t = fn.blocks[ups[0][3]]['term']
-            pl = op_place(t['args'][1])
-            arg_cls = fl.find(pl['l']) if pl else None
-            # &_5 is a shared borrow: resolve through the def
-            defs = common.defs_of(fn)
-            if pl is not None:
-                for _, kind, rv in defs.get(pl['l'], []):
-                    if kind == 'assign' and rv['k'] == 'ref':
-                        arg_cls = fl.find(rv['place']['l'])
-            okh = okh and arg_cls == bc
+        order = {b: i for i, b in enumerate(linear_blocks(fn))}
+        for (kind, abi, aop, at), (bc, be) in zip(apps, bufs):
+            last_fill = max(x[3] for x in be if x[0] in ('extend_from_slice', 'push', 'extend'))
+            okh = okh and abi in order and last_fill in order and order[abi] > order[last_fill] and cls_of(aop) == bc
+        first_fill2 = min(x[3] for x in bufs[1][1] if x[0] in ('extend_from_slice', 'push', 'extend'))
+        okh = okh and order.get(first_fill2, -1) > order.get(apps[0][1], 1 << 30)
+        # an inline hasher is updated exactly once
+        hs = [(c, e) for c, e in by_cls.items() if any(x[0] == 'update' for x in e)]
+        okh = okh and all(len([x for x in e if x[0] == 'update']) == 1 for c, e in hs)
     rep.ob('C09.preimage', 'hashers', okh, 'each hasher is updated once with its own buffer after the buffer is complete', fn.loc(), cfg)
     bad = [t['f'].get('name') for _, t in fn.calls() if t['f'].get('name') in ('to_le_bytes', 'reverse', 'swap_bytes', 'to_ne_bytes', 'from_bytes_le', 'from_bytes_le_slice', 'rev')]
     rep.ob('C09.preimage', 'big-endian-only', not bad, f'little-endian / reversing calls in verify_pow: {bad}', fn.loc(), cfg)
@@ -189,7 +205,7 @@ def threshold(db, rep):
             import re
             m = re.search(r'Range\{start: 0, end: (\d+)\}', sa)
             n = re.search(r'pow(?:_felt)?\(2, sub\((\d+), a2\)', sb)
-            if m and n and 'from_bytes_be' in sa and 'finalize' in sa:
+            if m and n and 'from_bytes_be' in sa and ('finalize' in sa or _has_helper_app(db, a)):
                 undecided = False
                 ok = t['f'].get('name') == 'lt' and int(m.group(1)) * 8 == int(n.group(1)) and bool(gs)
     # no modular reduction: a digest enters the field only through a constant sub-range of at most 31 bytes
@@ -197,9 +213,10 @@ def threshold(db, rep):
         if t['f'].get('name') in ('from_bytes_be_slice', 'from_bytes_be', 'from_bytes_le', 'from_bytes_le_slice'):
             a = T.operand(t['args'][0])
             sa = exprtree.show(a)
-            m = re.search(r'Range\{start: (\d+), end: (\d+)\}', sa) if 'finalize' in sa else None
+            is_hash = 'finalize' in sa or _has_helper_app(db, a)
+            m = re.search(r'Range\{start: (\d+), end: (\d+)\}', sa) if is_hash else None
             width = int(m.group(2)) - int(m.group(1)) if m else None
-            rep.ob('C09.threshold', 'no-field-reduction', 'finalize' not in sa or (width is not None and width <= 31),
+            rep.ob('C09.threshold', 'no-field-reduction', not is_hash or (width is not None and width <= 31),
                    f'hash bytes converted to a field element: {sa[:120]} (width {width} bytes): a 32-byte value is reduced modulo p, so hashes just '
                    'above a multiple of p compare as small', fn.loc(t['line']), cfg)
     if undecided:
@@ -208,3 +225,13 @@ def threshold(db, rep):
         rep.ob('C09.threshold', 'prefix-bits=constant,strict', ok,
                f'acceptance requires from_bytes_be(hash2[0..k]) < 2^(N - n_bits) with 8k == N and a strict comparison; found {shown}',
                fn.loc(), cfg)
+
+
+def _has_helper_app(db, t):
+    if isinstance(t, tuple):
+        if t and isinstance(t[0], str) and '::' in t[0] and hashsites.is_hash_helper(db, t[0]):
+            return True
+        return any(_has_helper_app(db, x) for x in t[1:])
+    if isinstance(t, dict):
+        return any(_has_helper_app(db, x) for x in t.values())
+    return False
